@@ -375,6 +375,8 @@ def run(rep, facts, tier):
     rule_18_5(rep, fx)
     rule_18_6(rep, fx)
 
+    rule_18_8(rep, fx)
+
     # ------------------------------------------------------------ R18.7 crossed roles (shared lint, rdv/swaplint.py)
     from rdv import swaplint
     swaplint.run_rule(rep, facts['security'], 'R18.7', ['security::access_control', 'security::certificate', 'security::config'])
@@ -460,3 +462,143 @@ def rule_18_6(rep, fx):
     users = sorted(set(x.key for x, _bb, _t in fx.callers_of('DistinguishedName::matches')))
     rep.check(any('find_grant' in u for u in users), 'R18.6', 'find_grant/uses-matches', 'find_grant compares subjects with DistinguishedName::matches',
               'find_grant no longer selects the grant through DistinguishedName::matches (callers: %s)' % users, b.where())
+
+
+def rule_18_8(rep, fx):
+    """The boolean structure of the applicability tests: a rule applies iff its domain list AND one of its criteria for the action match; a criterion matches iff its topic
+    expressions AND its partitions AND its data tags match. Turned into decision tables over the iterator tests and compared with the reference formula for every assignment."""
+    import itertools
+    from rdv import boolform
+    rep.rule('R18.8', 'applicability formulas (decision tables over their atoms, all assignments): Criterion::is_applicable = any(topics) AND all(partitions) AND all(data_tags); '
+                      'DataTag::check = (name equal) AND (value equal); Rule::is_applicable = any(domains) AND any(criteria of the action), the criteria list being publish / subscribe / '
+                      'relay for Publish / Subscribe / Relay; Grant::check_participant_join = default action allows OR some rule (allows AND has a criterion AND matches the domain); '
+                      'check_entity = unprotected OR (write | read | write OR read for Datawriter | Datareader | Topic)')
+    D = AC + 'domain_participant_permissions_document::'
+
+    def field_of(t, names):
+        for f in names:
+            if term_has(t, lambda x: x[0] == 'field' and x[1] == f):
+                return f
+        return None
+
+    def check_table(key, b, namer, atoms, ref, discr=None, extra=None, rows_with=None):
+        rep.analysed(b)
+        T = boolform.table(b, fx, namer, discr)
+        bad = []
+        n = 0
+        doms = [extra[a] if extra and a in extra else (False, True) for a in atoms]
+        for vals in itertools.product(*doms):
+            n += 1
+            asg = dict(zip(atoms, vals))
+            got = T.eval(asg, rows_with)
+            want = ref(asg)
+            if got != want:
+                bad.append((asg, got, want))
+        missing = [a for a in atoms if a not in T.atoms]
+        rep.check(not bad and not missing, 'R18.8', key, '%d assignments of %s agree with the reference formula' % (n, atoms),
+                  '%s does not compute its reference formula: %s' % (key, ('atoms not found: %s' % missing) if missing else
+                                                                     '; '.join('%s -> code %s, expected %s' % (a, g, w) for a, g, w in bad[:3])), b.where())
+
+    # 1. Criterion::is_applicable
+    def n_crit(t, og, bb):
+        last = callee_res(t).rsplit('::', 1)[-1]
+        if last in ('any', 'all'):
+            a = og.of_operand(t['args'][0], bb, 'term')
+            f = field_of(a, ('topics',))
+            if f:
+                return '%s:%s' % (last, f)
+            for i, nm in ((3, 'partitions'), (4, 'data_tags')):
+                if term_has(a, lambda x: x == ('param', i)):
+                    return '%s:%s' % (last, nm)
+        return None
+    check_table('Criterion::is_applicable', fx.find(D + 'Criterion::is_applicable'), n_crit, ['any:topics', 'all:partitions', 'all:data_tags'],
+                lambda a: a['any:topics'] and a['all:partitions'] and a['all:data_tags'])
+
+    # 2. DataTag::check
+    def n_tag(t, og, bb):
+        cr = callee_res(t)
+        if cr.endswith(('::eq', '::ne')):
+            ar = [og.of_operand(x, bb, 'term') for x in t['args']]
+            f = [field_of(x, ('name', 'value')) for x in ar]
+            f = [x for x in f if x]
+            if len(f) == 1:
+                return '%s:%s' % (cr.rsplit('::', 1)[-1], f[0])
+        return None
+    check_table('DataTag::check', fx.find(D + 'DataTag::check'), n_tag, ['eq:name', 'eq:value'], lambda a: a['eq:name'] and a['eq:value'])
+
+    # 3. Rule::is_applicable
+    def n_rule(t, og, bb):
+        last = callee_res(t).rsplit('::', 1)[-1]
+        if last == 'any':
+            a = og.of_operand(t['args'][0], bb, 'term')
+            if field_of(a, ('domains',)):
+                return 'any:domains'
+            if field_of(a, ('publish', 'subscribe', 'relay')):
+                return 'any:criteria'
+        return None
+    rb = fx.find(D + 'Rule::is_applicable')
+    check_table('Rule::is_applicable', rb, n_rule, ['any:domains', 'any:criteria'], lambda a: a['any:domains'] and a['any:criteria'])
+    # the criteria list follows the action
+    og = Origins(rb, summaries=False)
+    amap = {}
+    for s_, t_, cond, lab in switch_edges(rb, fx, og):
+        if isinstance(lab, str) and lab in ('Publish', 'Subscribe', 'Relay') and cond[0] == 'discr':
+            for st in rb.blocks[t_]['st']:
+                if st['s'] == 'assign' and st['rv']['r'] == 'ref':
+                    names = [e.get('n') for e in (st['rv']['pl'].get('p') or []) if isinstance(e, dict)]
+                    if names and names[-1] in ('publish', 'subscribe', 'relay'):
+                        amap[lab] = names[-1]
+    rep.check(amap == {'Publish': 'publish', 'Subscribe': 'subscribe', 'Relay': 'relay'}, 'R18.8', 'Rule::is_applicable/criteria-of-action', 'Publish -> publish, Subscribe -> subscribe, Relay -> relay',
+              'Rule::is_applicable does not take the criteria list of the requested action (%s)' % amap, rb.where())
+
+    # 4. Grant::check_participant_join and its closure
+    gj = fx.find(D + 'Grant::check_participant_join')
+
+    def n_join(t, og, bb):
+        cr = callee_res(t)
+        last = cr.rsplit('::', 1)[-1]
+        a = og.of_operand(t['args'][0], bb, 'term') if t['args'] else ('unknown',)
+        if last == 'into' and field_of(a, ('default_action',)):
+            return 'allows:default'
+        if last == 'any' and field_of(a, ('rules',)):
+            return 'any:rules'
+        return None
+    check_table('Grant::check_participant_join', gj, n_join, ['allows:default', 'any:rules'], lambda a: a['allows:default'] or a['any:rules'])
+    cl = [c for c in fx.closures_of(gj, transitive=False)]
+    if len(cl) != 1:
+        raise CheckBroken('check_participant_join: expected one rule closure, found %d' % len(cl))
+
+    def n_jc(t, og, bb):
+        cr = callee_res(t)
+        last = cr.rsplit('::', 1)[-1]
+        a = og.of_operand(t['args'][0], bb, 'term') if t['args'] else ('unknown',)
+        if last == 'into' and field_of(a, ('verdict',)):
+            return 'allows:verdict'
+        if last == 'is_empty':
+            f = field_of(a, ('publish', 'subscribe', 'relay'))
+            if f:
+                return 'empty:%s' % f
+        if last == 'any' and field_of(a, ('domains',)):
+            return 'any:domains'
+        return None
+    check_table('Grant::check_participant_join/rule-closure', cl[0], n_jc, ['allows:verdict', 'empty:publish', 'empty:subscribe', 'empty:relay', 'any:domains'],
+                lambda a: a['allows:verdict'] and not (a['empty:publish'] and a['empty:subscribe'] and a['empty:relay']) and a['any:domains'])
+
+    # 5. the final decision of check_entity
+    ce = [x for x in fx.bodies if x.name == 'check_entity' and x.key.startswith(AC) and x.kind in ('fn', 'assoc_fn')]
+    if len(ce) != 1:
+        raise CheckBroken('check_entity not found (%d)' % len(ce))
+
+    def n_ce(t, og, bb):
+        last = callee_res(t).rsplit('::', 1)[-1]
+        a = og.of_operand(t['args'][0], bb, 'term') if t['args'] else ('unknown',)
+        if last == 'into' and term_has(a, lambda x: x[0] == 'call' and x[1].endswith('check_action')):
+            txt = term_str(a)
+            return 'write' if 'Publish' in txt else ('read' if 'Subscribe' in txt else None)
+        if last in ('is_some_and', 'is_none_or', 'map_or') and term_has(a, lambda x: x[0] == 'call' and x[1].endswith('find_topic_rule')):
+            return 'unprotected'
+        return None
+    check_table('check_entity/decision', ce[0], n_ce, ['entity', 'unprotected', 'write', 'read'],
+                lambda a: a['unprotected'] or {'Datawriter': a['write'], 'Datareader': a['read'], 'Topic': a['write'] or a['read']}[a['entity']],
+                discr=lambda cond: 'entity' if 'Entity' in str(cond[2] if len(cond) > 2 else '') else None,
+                extra={'entity': ('Datawriter', 'Datareader', 'Topic')}, rows_with='entity')
